@@ -45,6 +45,7 @@ func vcCmd(args []string) {
 	work := fs.String("work", "/tmp/gvc-work", "work dir")
 	timeout := fs.Int("t", 10, "timeout seconds")
 	verbose := fs.Bool("v", false, "verbose")
+	audit := fs.Bool("audit", false, "after discharging, ask for every obligation whether its context alone is contradictory (vacuity audit; dead code shows up too)")
 	spec := fs.String("spec", "", "extra contract files: pkgpath=file[,pkgpath=file…] (development: contracts kept outside the repository)")
 	fs.Parse(args)
 	extra := map[string][]string{}
@@ -102,6 +103,15 @@ func vcCmd(args []string) {
 			if o.Status == "unsat" {
 				bad++
 				fmt.Printf("  VACUOUS %s\n", o.Name)
+			}
+		}
+		if *audit {
+			cov := &eng.FuncResult{Func: res.Func, Lines: res.Lines, Covers: eng.ContextCovers(res)}
+			eng.Discharge(cov, eng.SolverConfig{WorkDir: *work, TimeoutS: 3})
+			for _, o := range cov.Covers {
+				if o.Status == "unsat" {
+					fmt.Printf("  CONTRADICTORY-CONTEXT %s (%s)\n", o.Name, o.Pos)
+				}
 			}
 		}
 		fmt.Printf("%s: %d/%d obligations discharged, %d lines\n", res.Func, ok, len(res.Obls), len(res.Lines))
